@@ -1,4 +1,6 @@
+import Ccp.Spec.BlankKeep
 import Ccp.Proofs.TreeLossless
+import Ccp.Proofs.TreeKeep
 /-!
 # C01 — parsing an indentation-style config is total and lossless
 
@@ -13,7 +15,8 @@ model; that the *real* parser likewise never raises on the generated inputs is w
 correspondence checks (the model answers `ok` for every request).  The typed-model factory
 (which may reject a line) is not part of this model.
 
-Property theorems only; helper lemmas live in `Ccp.Proofs.TreeLossless`.
+Property theorems only; helper lemmas live in `Ccp.Proofs.TreeLossless` and `Ccp.Proofs.TreeKeep`;
+the specification of the blank-line filter is `Ccp/Spec/BlankKeep.lean`.
 -/
 namespace Ccp.C01
 open Ccp.Tree Ccp.Py
@@ -62,14 +65,33 @@ theorem parse_drops_only_blank (cfg : Cfg) (ls : List Str) (s : Str) (hs : s ∈
   rw [← h] at this
   exact (List.mem_filter.mp this).1
 
-/-
-Not proved (stretch goal of DESIGN.md §5, `parse_texts_ignore_blank` in its strongest form):
-`(parse cfg ls).texts = ls.filter (keepSpec cfg ls)` with `keepSpec` = "non-blank, or inside a
-banner or macro body" defined without reference to the passes.  What is proved instead is the
-sandwich above: sub-list of the input ⊇ all non-blank lines, and stability under the filter.
-Which blank lines survive is therefore *modelled* (pass 2/3 `setKeep`) and checked by the
-correspondence, not characterised by a theorem.
--/
+/-- **Closed form with `ignore_blank_lines`** (`Ccp/Spec/BlankKeep.lean`): the texts of the
+result are the input lines at the positions `j` with `keepSpec cfg ls j`, i.e. line `j` is
+non-blank or lies in the stretch protected by a start line at some position `q ≤ j`
+(`inBody_spec` below).  `prot cfg x rest` is that stretch, counted from the start line `x`
+itself: for a banner start `1 +` the number of following lines before the first one that
+contains the delimiter (`0` more if the banner has no recognisable delimiter or the delimiter
+occurs twice in the start line); for a `macro name` line under syntax ios `1 +` the number of
+following lines up to and including the first `@` line; the larger of the two; `0` if `x`
+starts nothing.  Banners and macros terminated or not, nested, overlapping: no hypotheses. -/
+theorem parse_texts_eq_keepSpec (cfg : Cfg) (ls : List Str) (hi : cfg.ignoreBlank = true) :
+    (parse cfg ls).texts = (ls.zipIdx.filter (fun xj => keepSpec cfg ls xj.2)).map Prod.fst := by
+  rw [parse_eq_bootstrap, bootstrap_texts_eq_scan cfg hi, keptScan_eq_filter]
+
+/-- the meaning of `inBody` (and hence of `keepSpec j = nonBlank line j || inBody j`) -/
+theorem inBody_spec (cfg : Cfg) (ls : List Str) (j : Nat) (hj : j < ls.length) :
+    inBody cfg ls j = true ↔
+      ∃ q, q ≤ j ∧ ∃ x, ls[q]? = some x ∧ j - q < prot cfg x (ls.drop (q + 1)) := by
+  rw [inBody_iff cfg ls j hj]
+  constructor
+  · rintro ⟨q, _, h2, h3⟩; exact ⟨q, h2, h3⟩
+  · rintro ⟨q, h2, h3⟩; exact ⟨q, Nat.zero_le _, h2, h3⟩
+
+/-- the restart loop of `bootstrap` never needs a second filtering round: the result is what
+one run of passes 1–3 and the blank-line filter on the input leaves -/
+theorem parse_single_round (cfg : Cfg) (ls : List Str) (hi : cfg.ignoreBlank = true) :
+    (parse cfg ls).texts = keptTexts (link cfg ls) := by
+  rw [parse_eq_bootstrap, bootstrap_texts_eq_scan cfg hi, keptTexts_link_eq_scan]
 
 /-! ## non-vacuity -/
 
@@ -83,11 +105,19 @@ private def exBanner : List Str :=
 example : (parse iosIgn exBanner).texts =
     ["banner motd ^".toList, " hello".toList, "".toList, "^".toList, "end".toList] := by decide
 example : (parse iosIgn exBanner).parents = [0, 0, 0, 0, 4] := by decide
+example : (List.range 6).map (keepSpec iosIgn exBanner) = [true, true, true, true, false, true] := by decide
+example : (List.range 6).map (inBody iosIgn exBanner) = [true, true, true, false, false, false] := by decide
 example : (parse iosCfg exBanner).texts = exBanner := by decide
 /-- an unterminated macro (the former `IndexError`, F01) parses, losslessly -/
 example : (parse iosCfg ["macro name m".toList, " a".toList]).texts = ["macro name m".toList, " a".toList] := by decide
 /-- a macro body keeps its blank line, the blank line after `@` goes -/
 example : (parse iosIgn ["macro name m".toList, "".toList, "@".toList, "".toList]).texts =
     ["macro name m".toList, "".toList, "@".toList] := by decide
+/-- under a non-ios syntax `macro name` protects nothing -/
+example : (parse { iosIgn with ios := false } ["macro name m".toList, "".toList, "@".toList, "".toList]).texts =
+    ["macro name m".toList, "@".toList] := by decide
+/-- an unterminated banner protects everything after it; the blank line before it goes -/
+example : (parse iosIgn ["".toList, "banner exec #".toList, "".toList, " ".toList]).texts =
+    ["banner exec #".toList, "".toList, " ".toList] := by decide
 
 end Ccp.C01
